@@ -482,7 +482,7 @@ func harnessFor(proc string) (pkgDir, harness string, ok bool) {
 		return repoDir, "options", true
 	}
 	readerFuncs := []string{"lz4stream.Frame.ParseHeaders", "lz4stream.Frame.readUint32", "lz4stream.FrameDescriptor.initR", "lz4stream.FrameDataBlock.Read",
-		"lz4stream.FrameDataBlock.Uncompress", "lz4stream.Frame.CloseR", "lz4stream.Blocks.initR", "lz4.Reader.", "lz4.ValidFrameHeader"}
+		"lz4stream.FrameDataBlock.Uncompress", "lz4stream.Frame.CloseR", "lz4stream.Blocks.initR", "lz4stream.initR$", "lz4.Reader.", "lz4.ValidFrameHeader"}
 	for _, p := range readerFuncs {
 		if strings.HasPrefix(proc, p) {
 			return repoDir, "reader", true
